@@ -9,6 +9,13 @@ def run(tier, seed):
     rep = Report("C02", tier, seed, "proof", "./vf check C02 --tier " + tier)
     progs = programs_for(tier, seed)
     run_pipeline(rep, progs, ["C02"])
+    # the dump follows the byte order current at dump time; so must the (compiled) reader whose value is dumped: bit-field
+    # programs after a byte-order switch
+    from pyvc.harness import run_cases
+    from t2 import sets
+
+    sw = [p for p in sets.singles(kinds=sorted(sets.BIT_KINDS)) if not p.align]
+    rep.add_case_results(run_cases([("t2.cases", "make_switch", (p.to_json(),)) for p in sw]), "T2")
     rep.extra["rule"] = T2_RULE
     rep.assumptions += T2_ASSUMPTIONS
     return rep
